@@ -260,7 +260,7 @@ def run(ctx):
     from . import C01, C10, C09, C07, C08, C14
     for mod, rules in ((C01, ("C01.R2", "C01.R3")), (C10, ("C10.R4",)), (C09, ("C09.R3", "C09.R4")), (C07, ("C07.R1",)), (C08, ("C08.R2",)), (C14, ("C14.R2",))):
         sub = shared_run(ctx, mod)
-        for e in sub.errors:
+        for e in relevant_errors(sub, rules):
             ctx.error("shared %s rules: %s" % (sub.prop, e))
         for o in sub.obligations:
             if o.rule in rules:
